@@ -263,7 +263,7 @@ func runOverlayTest(L *Loaded, verif string, testSrc string, race bool) (bool, s
 	ob, _ := json.Marshal(map[string]interface{}{"Replace": ov})
 	of := filepath.Join(dir, "overlay.json")
 	os.WriteFile(of, ob, 0o644)
-	args := []string{"test", "-overlay", of, "-vet=off", "-count=1", "-timeout", "60s", "-run", "^TestVerifReplay$"}
+	args := []string{"test", "-v", "-overlay", of, "-vet=off", "-count=1", "-timeout", "60s", "-run", "^TestVerifReplay$"}
 	if race {
 		args = append(args, "-race")
 	}
